@@ -38,5 +38,8 @@ for m in regen.modules():
     for drv, ext in getattr(m, "DRIVERS", []):
         if (drv, ext) not in seen:
             seen.add((drv, ext)); vlib.ocaml_driver(drv, ext)
+    bd = getattr(m, "build_drivers", None)      # checks with their own driver glue
+    if bd:
+        bd()
 PY
 echo "setup ok"
